@@ -402,39 +402,51 @@ pub struct NodeCfg {
     pub alt_name: Option<String>,
     pub config: anemo::Config,
     pub bind: Option<SocketAddr>,
-    /// install a (pass-through, counting) user `outbound_request_layer`
+    /// install a (counting) user `outbound_request_layer` ...
     pub outbound_layer: Option<Arc<AtomicUsize>>,
+    /// ... that forwards each request only after this long
+    pub outbound_layer_delay: Duration,
     /// wrap the service in `tower::limit::ConcurrencyLimit` (back-pressure through `poll_ready`)
     pub concurrency_limit: Option<usize>,
 }
 
-/// Pass-through outbound layer that counts the requests it sees.
+/// Outbound layer that counts the requests it sees and forwards them - at once, or (a throttle, a
+/// queue in front of the wire) only after `delay`.
 #[derive(Clone)]
-pub struct CountLayer(pub Arc<AtomicUsize>);
+pub struct CountLayer(pub Arc<AtomicUsize>, pub Duration);
 
-#[derive(Clone)]
-pub struct CountSvc<S>(S, Arc<AtomicUsize>);
+pub struct CountSvc<S>(Arc<std::sync::Mutex<S>>, Arc<AtomicUsize>, Duration);
 
 impl<S> tower::Layer<S> for CountLayer {
     type Service = CountSvc<S>;
     fn layer(&self, inner: S) -> Self::Service {
-        CountSvc(inner, self.0.clone())
+        CountSvc(Arc::new(std::sync::Mutex::new(inner)), self.0.clone(), self.1)
     }
 }
 
 impl<S, R> tower::Service<R> for CountSvc<S>
 where
-    S: tower::Service<R>,
+    S: tower::Service<R> + Send + 'static,
+    S::Future: Send + 'static,
+    R: Send + 'static,
 {
     type Response = S::Response;
     type Error = S::Error;
-    type Future = S::Future;
+    type Future = Pin<Box<dyn Future<Output = Result<S::Response, S::Error>> + Send>>;
     fn poll_ready(&mut self, cx: &mut Context<'_>) -> Poll<Result<(), Self::Error>> {
-        self.0.poll_ready(cx)
+        self.0.lock().unwrap().poll_ready(cx)
     }
     fn call(&mut self, r: R) -> Self::Future {
         self.1.fetch_add(1, Ordering::SeqCst);
-        self.0.call(r)
+        let (inner, delay) = (self.0.clone(), self.2);
+        Box::pin(async move {
+            if !delay.is_zero() {
+                tokio::time::sleep(delay).await;
+            }
+            // forwarded only now: whatever the library wraps around the wire call starts here
+            let fut = inner.lock().unwrap().call(r);
+            fut.await
+        })
     }
 }
 
@@ -447,6 +459,7 @@ impl NodeCfg {
             config: default_config(),
             bind: None,
             outbound_layer: None,
+            outbound_layer_delay: Duration::ZERO,
             concurrency_limit: None,
         }
     }
@@ -613,7 +626,7 @@ impl World {
                 1 => b.server_name(cfg.name.clone()),
                 2 => b.private_key(cfg.key),
                 3 => b.alternate_server_name(cfg.alt_name.clone().unwrap()),
-                _ => b.outbound_request_layer(CountLayer(cfg.outbound_layer.clone().unwrap())),
+                _ => b.outbound_request_layer(CountLayer(cfg.outbound_layer.clone().unwrap(), cfg.outbound_layer_delay)),
             };
         }
         let net = match cfg.concurrency_limit {
